@@ -186,7 +186,8 @@ def strategy():
         if t in UNINF:
             isoforms = []
         elif t in ("ambiguous", "inconsistent_ambiguous"):
-            isoforms = draw(st.lists(st.sampled_from(iso_pool), min_size=2, max_size=3, unique=True))
+            # one process builds the isoform list of equal alignments in the same order: canonical order here
+            isoforms = sorted(draw(st.lists(st.sampled_from(iso_pool), min_size=2, max_size=3, unique=True)))
         else:
             isoforms = [draw(st.sampled_from(iso_pool))]
         start = draw(st.integers(1, 40)) * 100
@@ -210,7 +211,7 @@ def strategy():
         for r in recs:
             k = dup_key(r)
             if k in seen:
-                assume(all(seen[k][f] == r[f] for f in ("type", "genes", "penalty", "polya")))
+                assume(all(seen[k][f] == r[f] for f in ("type", "genes", "penalty", "polya", "secondary", "isoforms")))
             else:
                 seen[k] = r
         # at most one primary alignment per read, as in a BAM file
@@ -219,6 +220,12 @@ def strategy():
         for i in prim:
             if i != keep and dup_key(recs[i]) != dup_key(recs[keep]):
                 recs[i] = dict(recs[i], secondary=True)
+        for i, r in enumerate(recs):
+            # copies of one alignment carry the same flag
+            for j in range(i):
+                if dup_key(recs[j]) == dup_key(r):
+                    recs[i] = dict(r, secondary=recs[j]["secondary"])
+                    break
         return recs
     return multiset()
 
